@@ -5,7 +5,7 @@ CONSTANTS
   MaxCrashes = 2
   PopBeforeSave = TRUE
   ReInject = FALSE
-  WriteFails = FALSE
-INVARIANTS NoLossStrict NoDupWithoutCrash
-
+  WriteFails = TRUE
+INVARIANTS NoLoss NoDupWithoutCrash
+PROPERTIES EventuallyIncluded
 CHECK_DEADLOCK FALSE
